@@ -41,7 +41,8 @@ RULE = (
 )
 ASSUMPTIONS = [
     "API preconditions taken from the callers in examples/: add / delete / merge_patches only while the mesh is not "
-    "assembled; assemble only when not assembled; clear / move / backport only when assembled; modify_patch only for "
+    "assembled; assemble only when not assembled; move / backport only when assembled; clear in every state (on a mesh "
+    "that is not assembled it has nothing to undo, the model stays as it is); modify_patch only for "
     "a patch name carried by a live operation; at least one operation stays undeleted",
     "the reference for a history is a new Mesh that receives the live operations (current corner positions, in the "
     "order they were added), the merged pairs and the default patch, is assembled once, then receives the patch "
@@ -70,6 +71,11 @@ SECTION_NAMES = ("geometry", "vertices", "blocks", "edges", "faces", "boundary",
 # generator
 
 
+def _face_adjacent(dims, a: int, b: int) -> bool:
+    pa, pb = lt.cell_ijk(dims, a), lt.cell_ijk(dims, b)
+    return sum(abs(x - y) for x, y in zip(pa, pb)) == 1
+
+
 def _dims_pool():
     return [d for d in lt.DIMS if 2 <= d[0] * d[1] * d[2] <= 8]
 
@@ -84,8 +90,13 @@ def history(draw, chops: str = "all", modify: bool = False, max_steps: int = 12)
     # few drawn floats (5, reused with a stride) so that Hypothesis spends its mutations on the program
     base = [draw(st.floats(-1.0, 1.0)) for _ in range(5)] if draw(st.booleans()) else []
     jitter = [base[(3 * j) % 5] * (1.0 if j % 2 else -0.5) for j in range(3 * nn)] if base else []
-    k = draw(st.integers(2, min(4, ncell)))
-    cells = list(draw(st.permutations(list(range(ncell))))[:k])
+    k = min(draw(st.sampled_from([2, 3, 3, 4, 4])), ncell)
+    # grow the set of cells mostly through face neighbours, so that operations usually share vertices
+    cells = [draw(st.integers(0, ncell - 1))]
+    while len(cells) < k:
+        free = [c for c in range(ncell) if c not in cells]
+        near = [c for c in free if any(_face_adjacent(dims, c, d) for d in cells)]
+        cells.append(draw(st.sampled_from(near if near and draw(st.integers(0, 4)) else free)))
     rots = [draw(st.integers(0, 23)) for _ in cells]
 
     fams, _ = lt.lattice_families({"dims": list(dims), "cells": cells})
@@ -121,15 +132,17 @@ def history(draw, chops: str = "all", modify: bool = False, max_steps: int = 12)
             "zone": "z1" if draw(st.integers(0, 3)) == 0 else "",
             "arc": [draw(st.sampled_from(["bottom", "top", "side"])), draw(st.integers(0, 3))] if extras & 1 else None,
             "proj_side": draw(st.sampled_from(ORIENTS)) if extras & 2 and draw(st.booleans()) else None,
-            "proj_corner": draw(st.integers(0, 7)) if extras & 4 and draw(st.booleans()) else None,
+            "proj_points": bool(extras & 2 and draw(st.booleans())),  # project_side(..., points=True)
+            "proj_corner": draw(st.integers(0, 7)) if extras & 4 else None,
         })
 
     # program: simulate the life cycle so that most steps are enabled
     program: List[list] = []
     assembled = False
+    was_assembled = False
     remaining = k
     alive = 0
-    first_adds = draw(st.integers(2, k))
+    first_adds = max(2, k - draw(st.sampled_from([0, 0, 0, 1, 2])))
     group = st.sampled_from([1, 1, 2])  # operations added by one mesh.add(): 2 = wrapped in a Shape
     while alive < first_adds:
         n = min(draw(group), first_adds - alive)
@@ -145,11 +158,12 @@ def history(draw, chops: str = "all", modify: bool = False, max_steps: int = 12)
         if assembled:
             kinds = ["move"] * 3 + ["backport"] * 3 + ["clear"] * 3 + ["write"] * 2 + ["set_default_patch"]
         else:
-            kinds = ["assemble"] * 3 + ["write"] * 2 + ["set_default_patch"] + ["merge_patches"] * 2
+            kinds = ["assemble"] * 3 + ["write"] * 2 + ["set_default_patch"] + ["merge_patches"] * 2 + ["clear"] * 2
             if remaining:
                 kinds += ["add"] * 2
             if alive >= 2 and deletes < 2:
-                kinds += ["delete"] * 3
+                # deleting after a first assembly is where state of the earlier assembly can leak
+                kinds += ["delete"] * (6 if was_assembled or deletes else 3)
         if modify:
             kinds += ["modify_patch"] * 4
         r = (turn + 5 * step_no) % len(kinds)
@@ -165,7 +179,7 @@ def history(draw, chops: str = "all", modify: bool = False, max_steps: int = 12)
             deletes += 1
         elif kind == "assemble":
             program.append(["assemble"])
-            assembled = True
+            assembled = was_assembled = True
         elif kind == "clear":
             program.append(["clear"])
             assembled = False
@@ -186,7 +200,7 @@ def history(draw, chops: str = "all", modify: bool = False, max_steps: int = 12)
             program.append(["merge_patches", draw(small), draw(small)])
         else:
             program.append(["write", draw(st.booleans())])
-            assembled = True
+            assembled = was_assembled = True
     program.append(["write", draw(st.booleans())])
     return {"dims": list(dims), "widths": widths, "jitter": jitter, "pool": pool, "program": program}
 
@@ -278,7 +292,7 @@ class Model:
         if spec["zone"]:
             op.set_cell_zone(spec["zone"])
         if spec["proj_side"]:
-            op.project_side(spec["proj_side"], "geo")
+            op.project_side(spec["proj_side"], "geo", points=bool(spec.get("proj_points")))
         if spec["proj_corner"] is not None:
             op.project_corner(spec["proj_corner"], "geo")
         return op
@@ -382,9 +396,6 @@ class Run:
         self.trace: List[list] = []  # executed steps with their resolved discrete arguments (distinctness key)
         self.resolved: list = []
         self.features: set = set()  # things that happened so far: reassembled, deleted, written, modified, moved...
-        self.since: Dict[str, list] = {}  # effect of the modify_patch calls made after the last clear()/backport()
-        self.lost_mod: Optional[Violation] = None  # deferred: patch modification lost (other clauses keep being checked)
-        self.masked: set = set()
         self.judged = 0
         self.nontrivial = False
 
@@ -459,6 +470,8 @@ class Run:
         m.deleted.add(i)
         self.features.add("deleted")
         self.features.add("deleted-first" if i == m.added[0] else "deleted-later")
+        if self.features & {"written", "reassembled", "cleared"}:
+            self.features.add("deleted-after-an-assembly")
         return True
 
     def do_assemble(self) -> bool:
@@ -482,18 +495,21 @@ class Run:
 
     def do_clear(self) -> bool:
         m = self.m
-        if not m.assembled:
-            self.skip("clear", "not-assembled")
-            return False
         self.lib("clear", self.mesh.clear)
+        if not m.assembled:
+            # clear() undoes assemble(); with nothing assembled it must leave the model (script) as it is
+            self.resolved = ["unassembled"]
+            self.features.add("cleared-unassembled")
+            if m.mods:
+                self.features.add("cleared-unassembled-after-modify")
+            return True
         m.assembled = False
         if m.pending:
             self.features.add("moves-dropped-by-clear")
         m.pending.clear()
         self.features.add("cleared")
-        if self.m.mods:
+        if m.mods:
             self.features.add("cleared-after-modify")
-        self.since.clear()
         return True
 
     def do_move(self, picks: list) -> bool:
@@ -560,9 +576,11 @@ class Run:
         self.features.add("backported-moves" if moved else "backported-unmoved")
         if moved and m.deleted:
             self.features.add("backported-moves-with-deleted")
+        flags = [i in m.deleted for i in m.added]
+        if any(flags[j] and flags[j + 1] and not all(flags[j + 2:]) for j in range(len(flags) - 1)):
+            self.features.add("backported-past-two-adjacent-deleted")
         if self.m.mods:
             self.features.add("cleared-after-modify")
-        self.since.clear()
         self.judged += 1
         self.nontrivial = True
         return True
@@ -579,8 +597,6 @@ class Run:
         self.lib("modify_patch", self.mesh.modify_patch, name, KINDS[kind], None if sett is None else list(sett))
         old = m.mods.get(name, ["patch", []])
         m.mods[name] = [KINDS[kind], old[1] if sett is None else list(sett)]
-        old = self.since.get(name, ["patch", []])
-        self.since[name] = [KINDS[kind], old[1] if sett is None else list(sett)]
         self.features.add("modified")
         return True
 
@@ -696,30 +712,17 @@ class Run:
         if sorted(tg) != sorted(tw):
             self.fail("boundary-patches-differ", f"patches {sorted(tg)} written, fresh build has {sorted(tw)}",
                       section="boundary")
-        lost = []
         for name in sorted(tw):
             (kg, stg, fg), (kw, stw, fw) = tg[name], tw[name]
             if fg != fw:
                 self.fail("boundary-faces-differ", f"patch {name}: quads {fg}, fresh build has {fw}", section="boundary",
                           patch=name)
             if (kg, stg) != (kw, stw):
-                if name in self.masked:
-                    continue
-                # what is written is what the calls made after the last clear()/backport() alone would give
-                if [kg, stg] == self.since.get(name, ["patch", []]) and "cleared-after-modify" in self.features:
-                    lost.append(name)
-                    continue
-                self.fail("patch-type-differs", f"patch {name}: type {kg!r} settings {stg}, fresh build has {kw!r} {stw}",
-                          section="boundary", patch=name)
-        if lost:
-            self.masked.update(lost)
-            self.ctx.label("patch-modification-lost")
-            if self.lost_mod is None:
-                mods = {n: self.m.mods[n] for n in lost}
-                self.lost_mod = Violation(
-                    "patch-modification-lost",
-                    f"patch type/settings set through modify_patch are back to 'patch' after clear()/backport(): {mods}",
-                    **self.facts(patches=lost),
+                self.fail(
+                    "patch-type-differs",
+                    f"patch {name}: type {kg!r} settings {stg}, fresh build has {kw!r} {stw} "
+                    f"(set through modify_patch: {self.m.mods.get(name)})",
+                    section="boundary", patch=name, modified=name in self.m.mods,
                 )
 
     def check_against_model(self, text: str) -> None:
@@ -767,8 +770,6 @@ def check_history(case, ctx: Ctx) -> None:
     run = Run(case, ctx)
     for step in case["program"]:
         run.step(step)
-    if run.lost_mod is not None:
-        raise run.lost_mod
     ctx.key = [case["dims"], [case["pool"][i] for i in run.m.added], run.trace]
     ctx.nt(run.nontrivial and run.judged > 0)
     ctx.label(*("did:" + f for f in sorted(run.features)))
